@@ -229,6 +229,8 @@ class Effects:
                     return self.roots(fn.value, f, amap, depth + 1)
             if d in VIEW_FUNCS and e.args:
                 return self.roots(e.args[0], f, amap, depth + 1)
+            if d == "np.nan_to_num" and e.args and any(k.arg == "copy" and isinstance(k.value, ast.Constant) and k.value.value is False for k in e.keywords):
+                return self.roots(e.args[0], f, amap, depth + 1)
             if d == "getattr" and e.args:
                 return self.roots(e.args[0], f, amap, depth + 1) | {FRESH}
             if d in ("copy.copy",) and e.args:
@@ -435,6 +437,9 @@ class Effects:
                         effect(k.value, "out=", st, norm(st)[:80])
                 if d == "setattr" and st.args:
                     effect(st.args[0], "setattr", st, norm(st)[:80])
+                if d in ("np.nan_to_num", "np.clip", "np.round", "np.around") and st.args and any(k.arg == "copy" and isinstance(k.value, ast.Constant) and k.value.value is False for k in st.keywords):
+                    # copy=False: the replacement happens in the array that was passed
+                    effect(st.args[0], "store", st, f"{d}(..., copy=False) works in place")
                 tgt = self.model.resolve_call(st, f)
                 if isinstance(tgt, Cls):
                     tgt = self.model.method(tgt, "__init__")
